@@ -71,18 +71,36 @@ class KVBench:
         for f in fdicts:
             r = self.ask(f, default_limit=default_limit)
             alone.append(None if r is None or r.get("ids") is None else r)
+        # the whole REQ through the real `executor` (planner + one execute_one_plan per plan on the storage's pool, as
+        # LMDBStorage.run_query does), so that whatever the plans of one REQ share is shared here too
+        import asyncio
+        import concurrent.futures
+        import logging
+
+        async def go():
+            out = []
+            with concurrent.futures.ThreadPoolExecutor(max_workers=1) as pool:
+                async for plan, events in impl.kv.executor(impl.env, [q.model_copy(deep=True) for q in qs], pool,
+                                                           default_limit=default_limit, log=logging.getLogger("nostr_relay.verif.kvq"),
+                                                           loop=asyncio.get_running_loop()):
+                    out.append([e.id for e in events])
+            return out
         try:
-            plans = list(impl.kv.planner([q.model_copy(deep=True) for q in qs], default_limit=default_limit))
+            loop = asyncio.new_event_loop()
+            try:
+                answers = loop.run_until_complete(go())
+            finally:
+                loop.close()
         except Exception as e:
-            self.report.property_failure("planner raised %r on a multi-filter REQ" % (e,), {"filters": fdicts}, None)
+            self.report.property_failure("the LMDB executor raised %r on a multi-filter REQ" % (e,), {"filters": fdicts}, None)
             return None
         want = [(f, r) for f, r in zip(fdicts, alone) if r is not None]
-        if len(plans) != len(want):
+        if len(answers) != len(want):
             self.report.property_failure(
                 "kv: a REQ of %d filters, %d of which are answered when asked alone, got %d plans"
-                % (len(fdicts), len(want), len(plans)), {"backend": "kv", "filters": fdicts, "events": self.events}, None)
+                % (len(fdicts), len(want), len(answers)), {"backend": "kv", "filters": fdicts, "events": self.events}, None)
             return None
-        return [(f, impl.execute(p), r) for (f, r), p in zip(want, plans)]
+        return [(f, a, r) for (f, r), a in zip(want, answers)]
 
     def ask(self, fdict, default_limit=None):
         """returns None when the filter is rejected or yields no plan; else a dict"""
